@@ -27,6 +27,7 @@ import (
 type c06Cfg struct {
 	Cache int  `json:"cache"`
 	Fast  bool `json:"fast"`
+	Cold  bool `json:"cold"` // the tree is reopened after the prelude: node cache and fast-node cache start cold
 }
 
 // a harness builds a fresh world and returns the thread bodies plus a checker of the recorded results.
@@ -52,7 +53,7 @@ var c06Contents = map[int64]map[string]string{
 }
 
 func prelude(cfg c06Cfg) *iavl.MutableTree {
-	t, _ := newTree(cfg)
+	t, st := newTree(cfg)
 	must := func(err error) {
 		if err != nil {
 			panic(err)
@@ -74,7 +75,38 @@ func prelude(cfg c06Cfg) *iavl.MutableTree {
 	must(err)
 	_, _, err = t.SaveVersion()
 	must(err)
+	if cfg.Cold {
+		must(t.Close())
+		t = iavl.NewMutableTree(st, cfg.Cache, !cfg.Fast, iavl.NewNopLogger())
+		_, err = t.Load()
+		must(err)
+	}
 	return t
+}
+
+// epilogue: after all threads have finished, every version (the held ones and the one the writer committed) is
+// read back sequentially through every read path and must have exactly its contents - a reader that raced with
+// the commit must not have left stale entries in the shared caches.
+func epilogue(r *rec, t *iavl.MutableTree, contents map[int64]map[string]string) {
+	for ver, content := range contents {
+		it, err := t.GetImmutable(ver)
+		if err != nil {
+			r.add("epilogue: GetImmutable(%d): %v", ver, err)
+			continue
+		}
+		for _, k := range []string{"a", "b", "c", "d"} {
+			v, err := it.Get([]byte(k))
+			expectGet(r, fmt.Sprintf("epilogue v%d.Get(%s)", ver, k), v, err, content, k)
+			_, v2, err := it.GetWithIndex([]byte(k))
+			expectGet(r, fmt.Sprintf("epilogue v%d.GetWithIndex(%s)", ver, k), v2, err, content, k)
+			gv, err := t.GetVersioned([]byte(k), ver)
+			expectGet(r, fmt.Sprintf("epilogue GetVersioned(%s,%d)", k, ver), gv, err, content, k)
+		}
+		all, err := iterAll(it)
+		if err != nil || !sameMap(all, content) {
+			r.add("epilogue v%d iteration = %v (err %v), version content %v", ver, all, err, content)
+		}
+	}
 }
 
 type rec struct{ lines []string }
@@ -152,7 +184,11 @@ func harnesses() []harness {
 					rr.add("reader v3.Has(d) = %v, %v", h, err)
 				}
 			}
-			return []func(){writerA(t, &rw), reader}, func() string { return strings.Join(append(rw.lines, rr.lines...), "; ") }
+			return []func(){writerA(t, &rw), reader}, func() string {
+				var re rec
+				epilogue(&re, t, map[int64]map[string]string{3: c06Contents[3], 4: v4A})
+				return strings.Join(append(append(rw.lines, rr.lines...), re.lines...), "; ")
+			}
 		}},
 		{"H2 writer(Remove,Set,SaveVersion) || reader(GetImmutable(latest), Get, Has, Iterator)", func(cfg c06Cfg) ([]func(), func() string) {
 			t := prelude(cfg)
@@ -184,7 +220,11 @@ func harnesses() []harness {
 					rr.add("reader v%d iteration = %v (err %v), version content %v", it.Version(), all, err, content)
 				}
 			}
-			return []func(){writerA(t, &rw), reader}, func() string { return strings.Join(append(rw.lines, rr.lines...), "; ") }
+			return []func(){writerA(t, &rw), reader}, func() string {
+				var re rec
+				epilogue(&re, t, map[int64]map[string]string{3: c06Contents[3], 4: v4A})
+				return strings.Join(append(append(rw.lines, rr.lines...), re.lines...), "; ")
+			}
 		}},
 		{"H3 writer(Set,SaveVersion,DeleteVersionsTo(1)) || reader1(v3: Iterator, GetProof) || reader2(v2: Get, Has)", func(cfg c06Cfg) ([]func(), func() string) {
 			t := prelude(cfg)
@@ -221,7 +261,9 @@ func harnesses() []harness {
 				}
 			}
 			return []func(){writer, reader1, reader2}, func() string {
-				return strings.Join(append(append(rw.lines, r1.lines...), r2.lines...), "; ")
+				var re rec
+				epilogue(&re, t, map[int64]map[string]string{2: c06Contents[2], 3: c06Contents[3], 4: {"a": "7", "b": "2", "c": "3"}})
+				return strings.Join(append(append(append(rw.lines, r1.lines...), r2.lines...), re.lines...), "; ")
 			}
 		}},
 		{"H6 reader1 || reader2 on the same held version (shared cached nodes)", func(cfg c06Cfg) ([]func(), func() string) {
@@ -348,7 +390,7 @@ func exploreSched(h harness, cfg c06Cfg, bound int, prefix []int32, st *schedSta
 }
 
 func c06Cfgs() []c06Cfg {
-	return []c06Cfg{{0, true}, {100, true}, {0, false}, {100, false}}
+	return []c06Cfg{{0, true, false}, {100, true, false}, {0, false, false}, {100, false, false}, {100, true, true}, {0, true, true}}
 }
 
 // worker mode: vcheck C06worker <harness idx> <cfg idx> <bound> <shard> <nshards>
@@ -504,7 +546,7 @@ func init() {
 					agg.Races[s] = w
 				}
 			}
-			name := fmt.Sprintf("%s cache=%d fast=%v race=%v bound=%d", hs[j.hi].name, cfgs[j.ci].Cache, cfgs[j.ci].Fast, j.race, b)
+			name := fmt.Sprintf("%s cache=%d fast=%v cold=%v race=%v bound=%d", hs[j.hi].name, cfgs[j.ci].Cache, cfgs[j.ci].Fast, cfgs[j.ci].Cold, j.race, b)
 			perHarness[name] = map[string]any{"schedules": agg.Execs, "max_scheduling_points": agg.MaxPoints, "distinct_outcomes": len(agg.Outcomes), "schedules_with_race_report": len(agg.Races)}
 			total.Execs += agg.Execs
 			if len(res.Samples) < 8 && len(agg.Violations) == 0 {
@@ -512,7 +554,7 @@ func init() {
 			}
 			// result oracle
 			for _, v := range agg.Violations {
-				text := fmt.Sprintf("%s cache=%d fast=%v schedule(thread order)=%v: %s", v.Harness, v.Cfg.Cache, v.Cfg.Fast, v.Threads, v.What)
+				text := fmt.Sprintf("%s cache=%d fast=%v cold=%v schedule(thread order)=%v: %s", v.Harness, v.Cfg.Cache, v.Cfg.Fast, v.Cfg.Cold, v.Threads, v.What)
 				if id := c.KF.MatchRaw("C06", text); id != "" {
 					c.KF.NoteRaw(id, text)
 					continue
@@ -555,7 +597,5 @@ func init() {
 		return res
 	}
 }
-
-func c06WorkerEntry(args []string) { c06Worker(args) }
 
 func c06WorkerEntry(args []string) { c06Worker(args) }
